@@ -110,12 +110,12 @@ def run(ctx):
                       workers=1, env={"VERIF_EMIT_DIR": e_hist, "VERIF_SEED": str(ctx.seed)}, timeout=1500, count=False,
                       name="gen:hist")
     ctx.tlc_expect_ok("treeauth", "TreeAuthGen", "TreeAuthGen_sim_t.cfg" if thorough else "TreeAuthGen_sim_q.cfg",
-                      workers=1, simulate=200 if thorough else 25, depth=12,
+                      workers=1, simulate=200 if thorough else 20, depth=12,
                       env={"VERIF_EMIT_DIR": e_sim, "VERIF_SEED": str(ctx.seed)}, timeout=2400, count=False, name="gen:sim")
     if not os.listdir(e_hist) or not os.listdir(e_sim):
         raise broken("no behaviours emitted")
     dirs = e_hist + os.pathsep + e_sim
-    ctx.go_test("./treeauth", run="TestReplay$", env={"VERIF_BEHAVIOURS": dirs, "VERIF_MAX_CASES": 50 if thorough else 30},
+    ctx.go_test("./treeauth", run="TestReplay$", env={"VERIF_BEHAVIOURS": dirs, "VERIF_MAX_CASES": 40 if thorough else 30},
                 timeout=2400)
     # 2b. byte-offset sweeps of the "bytes altered" classes
     ctx.go_test("./treeauth", run="TestSweep$", env={"VERIF_BEHAVIOURS": e_sim, "VERIF_SWEEP_CONTEXTS": 12 if thorough else 4,
